@@ -173,6 +173,42 @@ Theorem gen_std_spec a : ok a ->
   g_std a = sqrt (S (fun i => sq (den a i - S (den a) / t_numel a)) / t_numel a).
 Proof. intros. unfold gen_metrics_std. rewrite gen_var_spec by assumption. reflexivity. Qed.
 
+(* ---- moments through hadamard_sum (C06) ---- *)
+Variable t_hsum : list tensor -> R.
+Hypothesis H_hsum : forall l, l <> nil -> Forall ok l ->
+  t_hsum l = S (fun i => fold_right (fun x acc => den x i * acc) 1 l).
+(* numel depends on the shape only *)
+Hypothesis H_numel_sh : forall a b, ok a -> ok b -> t_numel a = t_numel b.
+Notation g_rawm := (gen_metrics_raw_moment tensor t_numel t_hsum).
+Notation g_normm := (gen_metrics_normalized_moment tensor t_dot t_sadd t_mean t_numel t_hsum).
+
+Lemma fold_repeat_pow a i k : fold_right (fun x acc => den x i * acc) 1 (repeat a k) = den a i ^ k.
+Proof. induction k as [|k IH]; cbn [repeat fold_right pow]; [reflexivity|]. rewrite IH. reflexivity. Qed.
+
+(* raw_moment(t, k) = E[t^k] (uniform weights) *)
+Theorem gen_raw_moment_spec a k : ok a -> (0 < k)%nat ->
+  g_rawm a k = S (fun i => den a i ^ k) / t_numel a.
+Proof.
+  intros Ha Hk. unfold gen_metrics_raw_moment. rewrite H_hsum.
+  - f_equal. apply S_ext. intros i _. apply fold_repeat_pow.
+  - destruct k; [inversion Hk|discriminate].
+  - clear Hk. induction k as [|k IH]; cbn [repeat]; constructor; auto.
+Qed.
+
+(* normalized_moment(t, k) = E[(t - E t)^k] / var^(k/2), population variance *)
+Theorem gen_normalized_moment_spec a k : ok a -> (0 < k)%nat ->
+  g_normm a k =
+  (S (fun i => (den a i - S (den a) / t_numel a) ^ k) / t_numel a) /
+  Rpower (S (fun i => sq (den a i - S (den a) / t_numel a)) / t_numel a) (INR k / 2).
+Proof.
+  intros Ha Hk. unfold gen_metrics_normalized_moment.
+  destruct (gen_subs_den a (t_mean a) Ha) as [O E].
+  rewrite (gen_raw_moment_spec _ k O Hk), gen_var_spec by assumption.
+  rewrite (H_numel_sh _ a O Ha). change (IZR 2) with 2. f_equal. f_equal.
+  apply S_ext. intros i Hi. rewrite E by assumption. rewrite H_mean by assumption. reflexivity.
+Qed.
+
+
 Theorem gen_r_squared_spec a b : ok a -> ok b ->
   g_r2 a b = 1 - S (fun i => sq (den a i - den b i)) / S (fun i => sq (den a i - S (den a) / t_numel a)).
 Proof.
